@@ -12,6 +12,15 @@ import Frp.Props.C16
       "sent" / "done";
     * `tear <gate> <n>`: the schedule the gate forces (`Crash.tearSchedule`) is run on the teardown model with
       RegisterWorkConn as the regenerated channel facts say it is written (`C16.regRecover`).
+    * `relogin <gate> <k> <order>`: the forced schedule (`RegCtl.reloginSchedule`) is run on the RegisterControl
+      model, written as the regenerated fact says it is (`C16.startAlways`): `done` iff the last login is answered;
+    * `gleave`: with the regenerated lock graph in order (`C16.lock_order_respected`) the join and the last leave
+      cannot block each other: `done`; otherwise a stalled answer is an allowed outcome;
+    * `swc <ver> <src> <sport> <dst> <dport>`: `Crash.handleStartWork` on what the resolver made of the addresses
+      (reported by the harness: relational), switch `Crash.startWorkAddrIsFixed`;
+    * `closerace udp` (and the storms that send user datagrams while udp proxies close): `Crash.fstep` — while the
+      hand-over in ForwardUserConn is a plain send (regenerated fact) the panic is an allowed outcome;
+    * `nstorm`: valid nat-hole traffic — `done` (the table accesses are covered by obligation 1).
   The property predicate `C16.holdsOn` is evaluated on the implementation's own observation: any
   crash / hang / failed watchdog is `prop=FAILS`, whether or not the model predicted it.
 -/
@@ -49,6 +58,56 @@ def tearModel (gate : String) (n : Nat) (impl : String) : String :=
     | .alive => "done"
     | .processDies => crashRegister
 
+def crashUdpForward : String := "crash:closed-channel@pkg/proto/udp.ForwardUserConn"
+
+/-- ops that make user datagrams meet the close of a udp proxy: while the hand-over is a plain send (regenerated
+    fact `C16.udpForwardRecovered`) the panic is an allowed — timing dependent — outcome -/
+def udpRaceModel (dflt impl : String) : String :=
+  if !C16.udpForwardRecovered && impl = crashUdpForward then impl else dflt
+
+def crashStartWork : String := "crash:nil@client/proxy.(*BaseProxy).HandleTCPWorkConnection"
+
+def lockOrderOk : Bool := LockOrd.respects Frp.Gen.LockOrder.order Frp.Gen.LockOrder.edges && Frp.Gen.LockOrder.relocks.isEmpty
+
+/-- digits of a release order -/
+def orderOf (s : String) : List Nat := s.toList.map (fun c => c.toNat - 48)
+
+def reloginModel (k : Nat) (order : String) : String :=
+  if RegCtl.lastAnswered (RegCtl.run C16.startAlways {} (RegCtl.reloginSchedule k (orderOf order))) then "done"
+  else "fail:relogin-last-unanswered"
+
+def addrResOf (c : Char) : Option AddrRes :=
+  if c = '4' then some .v4 else if c = '6' then some .v6 else if c = '-' then some .bad else none
+
+def ppVerOf (s : String) : PPVer :=
+  if s = "none" then .unset else if s = "v1" then .v1 else if s = "v2" then .v2 else .other
+
+def swcOutName : SwcOut → String
+  | .crash => "crash" | .hdr => "hdr" | .nohdr => "nohdr" | .closed => "closed"
+
+/-- `swc`: the harness reports what net.ResolveTCPAddr made of the two addresses (`res=<s><d>`); a dead child cannot
+    report: then the crash is accepted iff the model has an address class for which it dies -/
+def swcModel (ver src sport : String) (impl : String) : Option String :=
+  match unhx src with
+  | none => none
+  | some srcBytes =>
+    let srcGiven := !srcBytes.isEmpty && sport != "0"
+    let srcHasDot := srcBytes.contains 46
+    let v := ppVerOf ver
+    if impl.startsWith "crash:" then
+      if handleStartWork startWorkAddrIsFixed v srcGiven srcHasDot .bad .v4 = .crash && impl = crashStartWork then some impl
+      else some "res=??;out=?"
+    else
+      match impl.toList with
+      | 'r' :: 'e' :: 's' :: '=' :: a :: b :: _ =>
+        match addrResOf a, addrResOf b with
+        | some ra, some rb =>
+          let o := handleStartWork startWorkAddrIsFixed v srcGiven srcHasDot ra rb
+          if o = .crash then some crashStartWork
+          else some (String.ofList ['r', 'e', 's', '=', a, b] ++ ";out=" ++ swcOutName o)
+        | _, _ => none
+      | _ => some "res=??;out=?"
+
 /-- the model's result; for the relational ops the implementation's result is accepted if allowed -/
 def modelOf (tok : List String) (impl : String) : Option String :=
   match tok with
@@ -79,14 +138,25 @@ def modelOf (tok : List String) (impl : String) : Option String :=
   | ["json", _, _, _] => some "sent"
   | ["raw", _] => some "sent"
   | ["drop", _] => some "-"
-  | ["storm", _, _, _] => some "done"
-  | ["wstorm", _, _, _] => some "done"
-  | ["wconn", _, _, _] => some "sent"
+  | ["storm", _, _, _] => some (udpRaceModel "done" impl)
+  | ["wstorm", _, _, _] => some (udpRaceModel "done" impl)
+  | ["wconn", _, _, _] => some (udpRaceModel "sent" impl)
+  | ["closerace", _, kind, _, _] => if kind = "udp" then some (udpRaceModel "done" impl) else some "done"
+  | ["pstorm", _, _, _] => some "done"
+  | ["routes", _, _, _] => some "done"
   | ["tear", _, gate, n, _] =>
     match n.toNat? with
     | none => none
     | some k => some (tearModel gate k impl)
   | ["cstorm", _, _] => some "done"
+  | ["nstorm", _, _, _] => some "done"
+  | ["relogin", _, _, k, order, _] =>
+    match k.toNat? with
+    | none => none
+    | some kk => some (reloginModel kk order)
+  | ["gleave", _, _, _] =>
+    if !lockOrderOk && impl.startsWith "fail:gleave" then some impl else some "done"
+  | ["swc", ver, src, sport, _, _] => swcModel ver src sport impl
   | ["watch"] => some "ok"
   | ["stat"] => if impl.startsWith "stat:" then some impl else some "stat:"
   | ["race6", _] =>
